@@ -19,6 +19,12 @@ def c04():
     return [paths.PathOptimizer()]
 
 
+def c08():
+    from harness import codec
+    return [codec.IntFromBytes(), codec.Decode(), codec.EncodeRoundTrip(), codec.AtomSizeBlob()]
+
+
 REGISTRY = {
+    'C08': dict(harnesses=c08, run=_runner('C08', c08)),
     'C04': dict(harnesses=c04, run=_runner('C04', c04)),
 }
